@@ -42,10 +42,13 @@ func shapeOK(v *big.Int, shape string) bool {
 
 func keyWithD(shape string) *sm2.PrivateKey {
 	c := sm2.P256Sm2()
-	if shape == "d_one" || shape == "d_max" {
+	if shape == "d_one" || shape == "d_max" || shape == "v_nm1" {
 		d := big.NewInt(1)
 		if shape == "d_max" {
 			d = new(big.Int).Sub(c.Params().N, big.NewInt(2))
+		}
+		if shape == "v_nm1" { // n - 1: the largest value r and s of a signature can take (not a private key)
+			d = new(big.Int).Sub(c.Params().N, big.NewInt(1))
 		}
 		x, y := c.ScalarBaseMult(d.Bytes())
 		return &sm2.PrivateKey{PublicKey: sm2.PublicKey{Curve: c, X: x, Y: y}, D: d}
@@ -333,6 +336,10 @@ func runC14(c map[string]string, dir string, thorough bool) map[string]interface
 				sk = keyPem(other)
 			case "negated":
 				sk = keyPem(negKey(sign.PrivateKey.(*sm2.PrivateKey)))
+			case "grafted":
+				// another private scalar, written with the CERTIFICATE's public point in the optional publicKey field of
+				// the PKCS#8 structure: the file claims the certificate's public key, the key in it is not its private key
+				sk = keyPem(&sm2.PrivateKey{PublicKey: sign.PrivateKey.(*sm2.PrivateKey).PublicKey, D: other.D})
 			case "swapped":
 				sk, ek = ek, sk
 			}
